@@ -38,6 +38,10 @@ EVENTS = [
     "lookup_dam", "define_dam",
     # scales (a unit plus a zero point): valid, zero point of another dimension, taken symbol
     "scale_define", "scale_wrong_dimension", "scale_dup_symbol",
+    # names of DERIVED dimensions are taken too; symbols spelled with compatibility characters
+    # (MICRO SIGN, OHM SIGN, ANGSTROM SIGN) must be looked up exactly as they were declared
+    "dim_define_dup_derived_name", "dim_derive_dup_derived_name",
+    "define_compat_symbol", "alias_compat_symbol", "name_prefix_compat_symbol",
 ]
 QUICK_EVENTS = EVENTS
 
@@ -132,7 +136,7 @@ class C19Model(Model):
         # the anonymous operands is not an effect of the (possibly failing) call itself
         if e in ("name_unit", "derive_dup_name", "derive_dup_symbol", "derive_space_symbol"):
             arg_unit = Meter * Second**5
-        if e in ("name_dim", "dim_derive_dup_name", "name_dim_dup_name"):
+        if e in ("name_dim", "dim_derive_dup_name", "name_dim_dup_name", "dim_derive_dup_derived_name"):
             arg_dim = m.Length**7
         t_before = tables(w)
         before = digest(t_before)
@@ -216,6 +220,19 @@ class C19Model(Model):
                 from measured.si import Kelvin
 
                 m.Temperature.scale(3 * Kelvin, "verif scale3", "K")
+            elif e == "dim_define_dup_derived_name":
+                m.Dimension.define("area", "Zz")
+            elif e == "dim_derive_dup_derived_name":
+                m.Dimension.derive(arg_dim, "area")
+            elif e == "define_compat_symbol":
+                u = m.Unit.define(m.Length, "verif microinch", "\u00b5in.")
+                decl = ("unit", "verif microinch", "\u00b5in.", u)
+            elif e == "alias_compat_symbol":
+                Second.alias(name="verif ohmish", symbol="\u2126s")
+                decl = ("unit", "verif ohmish", "\u2126s", Second)
+            elif e == "name_prefix_compat_symbol":
+                p = m.Prefix(7, 6, name="verif mu", symbol="\u00b5\u00b5")
+                decl = ("prefix", "verif mu", "\u00b5\u00b5", p)
             elif e == "name_prefix_dup_name":
                 m.Prefix(7, 2, name="kilo", symbol="vk2")
             elif e == "name_prefix_dup_symbol":
@@ -269,15 +286,33 @@ class C19Model(Model):
             ok = got is obj and reports
             if ok and sort == "unit" and what == "symbol":
                 try:
-                    ok = m.Unit.resolve_symbol(text) is obj and m.Unit.parse(text) is obj
+                    ok = m.Unit.resolve_symbol(text) is obj
                 except Exception:
                     ok = False
+                if ok:
+                    # the property observes resolve_symbol()/named(); through the parser the
+                    # symbol must not come back as something else, but a symbol the lexer has
+                    # no character class for (MICRO SIGN, OHM SIGN) is C13/C17 territory
+                    from measured.parsing import ParseError
+
+                    try:
+                        ok = m.Unit.parse(text) is obj
+                    except ParseError:
+                        ok = True
+                    except Exception:
+                        ok = False
             if ok and sort == "unit" and what == "name":
-                ok = m.Unit.named(text) is obj
-            if ok and sort == "prefix" and what == "symbol":
-                ok = m.Prefix.resolve_symbol(text) is obj
-            if ok and sort == "dimension":
-                ok = m.Dimension.named(text) is obj
+                try:
+                    ok = m.Unit.named(text) is obj
+                except Exception:  # noqa
+                    ok = False
+            try:
+                if ok and sort == "prefix" and what == "symbol":
+                    ok = m.Prefix.resolve_symbol(text) is obj
+                if ok and sort == "dimension":
+                    ok = m.Dimension.named(text) is obj
+            except Exception:  # noqa: a lookup of a declared name that raises is not bound either
+                ok = False
             if not ok:
                 out.append(
                     ("declaration_not_bound", f"{sort} {what} {text!r}",
@@ -291,7 +326,7 @@ class C19Model(Model):
         return [t, sorted((k[0], k[1], k[2]) for k in c.bound)]
 
 
-ONCE = {"define_dim", "dim_define_dup_name", "dim_define_dup_symbol"}
+ONCE = {"define_dim", "dim_define_dup_name", "dim_define_dup_symbol", "dim_define_dup_derived_name"}
 
 _BASE_U = None
 
